@@ -189,6 +189,9 @@ def main(argv=None) -> int:
 
     for key in sorted(seen_known):
         print(f"KNOWN-FINDING: property={prop} {key} :: {known[key]['what']}")
+    if not a.replay and not a.only:
+        for key in sorted(k for k, v in known.items() if v["property"] == prop and k not in seen_known):
+            print(f"NOTE: listed finding not observed in this run (fixed, or not reached): property={prop} {key}")
     os.makedirs(REPLAYS, exist_ok=True)
     for key in sorted(fresh):
         v = fresh[key]
@@ -218,6 +221,7 @@ def main(argv=None) -> int:
             "distinct_cases_sample": sorted(cases)[:40],
             "shards": len(specs),
             "known_findings_observed": sorted(seen_known),
+            "known_findings_listed_not_observed": sorted(k for k, v in known.items() if v["property"] == prop and k not in seen_known),
             "unlisted_violations": sorted(fresh),
             "inconclusive": inconclusive[:20],
             "verdict": "violated" if fresh else ("inconclusive" if inconclusive else "held on what was observed"),
